@@ -69,9 +69,10 @@ def showErr : Err → String
   | .noDensity => "ERR noDensity"
   | .noEnergy => "ERR noEnergy"
 
-/-- `formula(compound, natural_density=nd).density` for a compound without ions -/
+/-- `formula(compound, natural_density=nd).density`: the natural partner of an atom is its
+    element with the ion charge kept (`formulas._natural_atom`) -/
 def densityOfNaturalF (st : St) (atoms : List (Atom × Float)) (nd : Float) : Float :=
-  densityOfNatural st.am (fun a => st.massFn a.z 0) atoms nd
+  densityOfNatural st.am (fun a => st.am ⟨a.z, 0, a.q⟩) atoms nd
 
 def handle (st : St) : Toks → IO St
   | ["row", z, ev, f1, f2] =>
